@@ -4668,6 +4668,7 @@ _trait_delegate(trait_object *trait, PyObject *args)
 {
     PyObject *delegate_name;
     PyObject *delegate_prefix;
+    PyObject *old_delegate_name, *old_delegate_prefix;
     int prefix_type;
     int modify_delegate;
 
@@ -4686,6 +4687,8 @@ _trait_delegate(trait_object *trait, PyObject *args)
         trait->flags &= ~TRAIT_MODIFY_DELEGATE;
     }
 
+    old_delegate_name = trait->delegate_name;
+    old_delegate_prefix = trait->delegate_prefix;
     trait->delegate_name = delegate_name;
     trait->delegate_prefix = delegate_prefix;
     if ((prefix_type < 0) || (prefix_type > 3)) {
@@ -4693,6 +4696,8 @@ _trait_delegate(trait_object *trait, PyObject *args)
     }
 
     trait->delegate_attr_name = delegate_attr_name_handlers[prefix_type];
+    Py_XDECREF(old_delegate_name);
+    Py_XDECREF(old_delegate_prefix);
 
     Py_INCREF(Py_None);
     return Py_None;
@@ -4790,6 +4795,7 @@ static PyObject *
 _trait_set_property(trait_object *trait, PyObject *args)
 {
     PyObject *get, *set, *validate;
+    PyObject *old_get, *old_set, *old_validate;
     int get_n, set_n, validate_n;
 
     if (!PyArg_ParseTuple(
@@ -4818,12 +4824,18 @@ _trait_set_property(trait_object *trait, PyObject *args)
         trait->setattr = setattr_property_handlers[set_n];
     }
 
+    old_get = trait->delegate_name;
+    old_set = trait->delegate_prefix;
+    old_validate = trait->py_validate;
     trait->delegate_name = get;
     trait->delegate_prefix = set;
     trait->py_validate = validate;
     Py_INCREF(get);
     Py_INCREF(set);
     Py_INCREF(validate);
+    Py_XDECREF(old_get);
+    Py_XDECREF(old_set);
+    Py_XDECREF(old_validate);
     Py_INCREF(Py_None);
     return Py_None;
 }
@@ -4835,6 +4847,15 @@ _trait_set_property(trait_object *trait, PyObject *args)
 static void
 trait_clone(trait_object *trait, trait_object *source)
 {
+    /* The target need not be a new trait (and may be the source itself):
+       the references it holds are released once the new ones are in place. */
+    PyObject *old_post_setattr = trait->py_post_setattr;
+    PyObject *old_validate = trait->py_validate;
+    PyObject *old_default_value = trait->default_value;
+    PyObject *old_delegate_name = trait->delegate_name;
+    PyObject *old_delegate_prefix = trait->delegate_prefix;
+    PyObject *old_handler = trait->handler;
+
     trait->flags = source->flags;
     trait->getattr = source->getattr;
     trait->setattr = source->setattr;
@@ -4854,6 +4875,12 @@ trait_clone(trait_object *trait, trait_object *source)
     Py_XINCREF(trait->default_value);
     Py_XINCREF(trait->delegate_prefix);
     Py_XINCREF(trait->handler);
+    Py_XDECREF(old_post_setattr);
+    Py_XDECREF(old_validate);
+    Py_XDECREF(old_default_value);
+    Py_XDECREF(old_delegate_name);
+    Py_XDECREF(old_delegate_prefix);
+    Py_XDECREF(old_handler);
 }
 
 static PyObject *
@@ -4972,6 +4999,15 @@ _trait_setstate(trait_object *trait, PyObject *args)
     PyObject *ignore;
     int getattr_index, setattr_index, post_setattr_index, validate_index,
         delegate_attr_name_index;
+    /* The trait need not be a new one: the references it holds are released
+       once the new state is in place. */
+    PyObject *old_post_setattr = trait->py_post_setattr;
+    PyObject *old_validate = trait->py_validate;
+    PyObject *old_default_value = trait->default_value;
+    PyObject *old_delegate_name = trait->delegate_name;
+    PyObject *old_delegate_prefix = trait->delegate_prefix;
+    PyObject *old_handler = trait->handler;
+    PyObject *old_dict = trait->obj_dict;
 
     if (!PyArg_ParseTuple(
             args, "(iiiOiOiOIOOiOOO)", &getattr_index, &setattr_index,
@@ -5023,6 +5059,13 @@ _trait_setstate(trait_object *trait, PyObject *args)
     else {
         Py_INCREF(trait->obj_dict);
     }
+    Py_XDECREF(old_post_setattr);
+    Py_XDECREF(old_validate);
+    Py_XDECREF(old_default_value);
+    Py_XDECREF(old_delegate_name);
+    Py_XDECREF(old_delegate_prefix);
+    Py_XDECREF(old_handler);
+    Py_XDECREF(old_dict);
 
     Py_INCREF(Py_None);
     return Py_None;
